@@ -11,6 +11,6 @@ OBLIGATIONS = [
        bound='file: HEADER, BGNLIB, LIBNAME, UNITS, BGNSTR, STRNAME, ENDSTR, ENDLIB (102 bytes); old and new time stamps arbitrary (also equal ones)',
        variants=[{'OP': 4}], unwind=120, timeout=600, mem_gb=12, wrap_files=True, nvec=6, flags=['--max-field-sensitivity-array-size', '400']),
 ]
-BOUNDS = 'one two-element cell; every field value symbolic'
-OUTSIDE = 'gds_timestamp in write mode (the harness exists - harness/C17/partial.c OP 4 - but the query ran out of 12 GB: no verdict, not claimed); raw-cell copying (read_rawcells + RawCell::to_gds / GdsWriter): not decided in this round; non-power-of-two unit ratios beyond the 1e-3 example; files with several cells'
+BOUNDS = 'one two-element cell, every field value symbolic; time-stamp rewrite on the element-free skeleton of the same file'
+OUTSIDE = 'raw-cell copying (read_rawcells + RawCell::to_gds / GdsWriter): not decided in this round; non-power-of-two unit ratios beyond the 1e-3 example; files with several cells'
 ASSUMPTIONS = ['in-memory FILE model', 'exp2 contract', 'hash<Tag> an arbitrary function']
